@@ -22,7 +22,7 @@ OUT = ('STATED PROMINENTLY: actual file-system effects, the install log and unin
        'install_targets (needs real files). This check decides WHERE and WITH WHICH MODE meson asks the OS to write, and which entries are selected.')
 MANIFEST = dict(
     text='Bounded symbolic decision of path re-rooting (all destdir/prefix/path strings within the bound), permission arithmetic (all umasks, all permission strings, both executable '
-         'states) and selection (all tag / subproject combinations). Partial claim: file operations, install log / uninstall and re-install idempotence are outside.',
+         'states) and selection (all tag / subproject combinations). Plus three small file-system worlds run through the real do_symlink / do_copyfile / do_copydir with --dry-run and the exclusion set symbolic. Partial claim: real file-system effects, uninstall and re-install idempotence of whole trees are outside.',
     note='Partial claim. Trusted: symx engine, z3, the harness models of PurePath / isabs (validated natively on sampled paths). Bounds: path strings <=3 characters over {/, ., a, b}.')
 
 MI = SC = FM = BK = ME = None
